@@ -99,8 +99,12 @@ EXTRA = {
  "C08": " Round 2 adds concurrent callers as a havoc/non-interference step: with the other direction's working buffer holding arbitrary bytes, Encrypt still equals textbook CFB, Decrypt still round-trips, and neither writes the other side's buffer (Encrypt and Decrypt hold different mutexes).",
  "C09": " Round 2 adds one inductive step of the real encoder from a symbolic position in the id space (data/parity ids, types, positions in the d+p cycle, next id modulo the wrap value) and runs the C07 encoder harnesses, the flush content lemma and the OOB nonce harness as part of this check.",
  "C10": " Round 2 adds: parity is exactly as long as the longest data packet of its own group (two groups, skipped or not), an accepted MTU shrink in the middle of an FEC group (defect found and repaired: parity of the straddling group exceeded the new MTU), and datagram sizes on both sockets of the session link.",
- "C12": " Round 2 runs the FEC group/skip harnesses at the id wrap and at 2^31 as part of this check (FEC ids wrap without disturbing recovery).",
- "C15": " Round 2 runs three traffic-heavy harnesses (session recovery through the FEC decoder, decoder fed arbitrary bytes, auto-tune re-tuning) under the ghost pool as part of this check.",
+ "C12": " Round 2 adds the acknowledgement functions on two in-flight segments (relational), a ten-group FEC scenario across the id wrap and across 2^31 with one loss per group (recovery, bounded decoder memory, no suspected mismatch), and runs the FEC group/skip harnesses at the id wrap and at 2^31 as part of this check (FEC ids wrap without disturbing recovery).",
+ "C15": " Round 2 adds SendOOB meeting Close (every select outcome, queue full or not: the acquired buffer has exactly one owner) and Close with a full accept backlog while a new peer's datagrams arrive on the receive goroutine (goroutine mode: nothing is left parked). It also runs three traffic-heavy harnesses (session recovery through the FEC decoder, decoder fed arbitrary bytes, auto-tune re-tuning) under the ghost pool as part of this check.",
+ "C11": " Round 2 adds: a foreign-conversation segment behind an FEC data header (the listener reads conv and sn at the FEC offsets), the application's late Close of a session that was replaced by a new conversation (successor stays registered), a full accept backlog followed by room (exactly one session/Accept for the waiting peer), and close/reconnect from the same address.",
+ "C14": " Round 2 adds: locks named by (struct, field name) so that a removed mutex is reported instead of breaking the harness build, goroutine confinement of the FEC encoder to postProcess (G5), SetRateLimit and consecutive short Reads as entry points.",
+ "C16": " Round 2 adds the quantitative clause at its extreme: header-only packet runs of a sender with d+p = 255 (254/1, 128/127, 1/254, 250/5) and smaller groups into a differently configured real decoder; it adopts the sender's ratio within 258+2(d+p) packets from every tested phase and start position (concrete runs executed inside the symbolic executor: no symbolic input beyond the enumerated choices).",
+ "C18": " Round 2 adds: the retransmission timer runs from the first transmission — after an acknowledgement-only flush at t1 and a full flush at t1+delta (delta symbolic) every segment first transmitted now has a full RTO (>= the minimum RTO) ahead.",
  "C19": " Round 2 adds OOB interleaved inside an FEC group under loss (session recovery harness): the stream's recovery is unaffected and the OOB message arrives intact.",
 }
 for k, v in EXTRA.items():
